@@ -10,9 +10,8 @@ import math
 from harness.core import fl, zl, nl, bl, ll, pl, FLOAT_AXIOMS
 
 PROP = "C18"
-THEOREMS = {"Artap.Props.C18": ["C18_pbest_never_regresses"]}
-_PLANNED = {"Artap.Props.C18": [
-    "C18_pbest_never_regresses", "C18_pbest_never_regresses_pareto", "C18_pbest_sweep",
+THEOREMS = {"Artap.Props.C18": [
+    "C18_pbest_never_regresses", "C18_pbest_never_regresses_pareto", "C18_pbest_textbook", "C18_pbest_sweep",
     "C18_velocity_clamped", "C18_velocity_clamped_swarm", "C18_velocity_clamped_float",
     "C18_position_on_violated_bound", "C18_velocity_reversed", "C18_velocity_damped", "C18_position_in_box",
     "C18_leaders_bounded", "C18_leaders_mutually_nondominated", "C18_leaders_pareto", "C18_leaders_eps",
